@@ -285,7 +285,7 @@ func c08CorpusRange(run *evid.Run, seed int64, from, to int, checkAll bool) []st
 		if nn+nr > 0 || class != "ascii" || clk != nil {
 			run.NonTrivial(fmt.Sprintf("%s/%s/n%d/r%d/t%d/c%v", codec, class, bucket(nn), bucket(nr), ct%7, clk != nil))
 		}
-		if i < 2 {
+		if i < 2 || run.NumSamples() < 2 {
 			run.Sample(map[string]any{"item": label, "cid": created.GetHash().String()})
 		}
 	}
